@@ -585,6 +585,34 @@ def uf_family(run, r, n):
         cl = cmpc(l_, r_)
         for rhs in (true, false, Not(kterm.less_eq(T)(r_, l_)), kterm.less_eq(T)(r_, l_), Not(kterm.less(T)(r_, l_)), kterm.less(T)(r_, l_), cl):
             offer('verit_comp_simplify', [Eq(cl, rhs)], [], 'guessed')
+    # ---- shape bank: every boolean simplification rule is offered every left side of the bank with every right side built
+    #      from the same sub-formulas (the rule decides, Z3 judges what was accepted)
+    bool_rules = ['verit_not_simplify', 'verit_and_simplify', 'verit_or_simplify', 'verit_implies_simplify', 'verit_equiv_simplify',
+                  'verit_bool_simplify', 'verit_connective_def', 'verit_ite_simplify', 'verit_eq_simplify', 'verit_ac_simp']
+    for rnd in range(2 if n <= 50 else 12):
+        A_, B_, C_ = (bform(1, ps) for _ in range(3)) if rnd else (ps[0], ps[1], ps[2])
+        nA, nB = Not(A_), Not(B_)
+        shapes = [Not(nA), Not(false), Not(true), Not(Implies(A_, B_)), Not(Or(A_, B_)), Not(And(A_, B_)), Implies(A_, Implies(B_, C_)),
+                  Implies(Implies(A_, B_), B_), And(A_, Implies(A_, B_)), And(Implies(A_, B_), A_), Implies(nA, nB), Implies(false, A_),
+                  Implies(A_, true), Implies(true, A_), Implies(A_, false), Implies(A_, A_), Implies(nA, A_), Implies(A_, nA),
+                  Eq(nA, nB), Eq(A_, A_), Eq(A_, nA), Eq(nA, A_), Eq(true, A_), Eq(A_, true), Eq(false, A_), Eq(A_, false), Eq(A_, B_),
+                  And(A_, true, B_), And(A_, false, B_), And(A_, B_, A_), And(A_, B_, nA), Or(A_, false, B_), Or(A_, true, B_), Or(A_, B_, A_),
+                  Or(A_, B_, nA), logic.mk_if(A_, B_, C_), logic.mk_if(true, B_, C_), logic.mk_if(false, B_, C_), logic.mk_if(A_, B_, B_),
+                  logic.mk_if(nA, B_, C_), logic.mk_if(A_, true, false), logic.mk_if(A_, false, true), logic.mk_if(A_, true, C_),
+                  logic.mk_if(A_, B_, false), logic.mk_if(A_, false, C_), logic.mk_if(A_, B_, true), logic.mk_if(A_, logic.mk_if(A_, B_, C_), C_),
+                  logic.mk_if(A_, B_, logic.mk_if(A_, C_, B_))]
+        try:
+            shapes.append(Const('xor', TFun(BoolType, BoolType, BoolType))(A_, B_))
+        except Exception:
+            pass
+        rhss = [true, false, A_, B_, C_, nA, nB, Not(C_), And(A_, B_), Or(A_, B_), Implies(A_, B_), Implies(B_, A_), Eq(A_, B_), And(nA, nB), Or(nA, nB),
+                And(A_, nB), Or(nA, B_), Implies(And(A_, B_), C_), Or(A_, C_), And(A_, C_), Or(nA, C_), And(nA, C_), Or(A_, B_, C_), And(A_, B_, C_),
+                And(Implies(A_, B_), Implies(B_, A_)), And(Implies(A_, B_), Implies(nA, C_)), Or(And(nA, B_), And(A_, nB)), logic.mk_if(A_, C_, B_),
+                logic.mk_if(A_, B_, C_), And(B_, A_), Or(B_, A_)]
+        for rule in bool_rules:
+            for lhs in shapes:
+                for rhs in rhss:
+                    offer(rule, [Eq(lhs, rhs)], [], 'bank')
     return stats
 
 
